@@ -122,6 +122,9 @@ def compile_roots(
             except NoCandidateException:
                 if max_downgrade == 0:
                     raise
+                # A walk that came back to this node through a cycle may have
+                # marked it complete; the retry must look at its dependencies again.
+                node.complete = False
                 compile_roots(
                     node,
                     source,
